@@ -159,7 +159,8 @@ pub fn random_value(r: &mut Rng, depth: usize) -> RV {
     }
 }
 
-pub const STRING_CHARS: [char; 41] = [
+pub const STRING_CHARS: [char; 47] = [
+    '”', '“', '’', '＂', '\u{200b}', '\u{feff}',
     'a', 'b', 'Z', '0', '9', ' ', '\t', '\n', '\r', '"', '\\', '/', '*', '+', '-', '(', ')', ',', ';', '=', '!', '&', '|',
     '<', '>', '%', '^', '.', 'e', 'x', '_', 'ä', 'ß', 'İ', '日', '😀', '\u{301}', '\u{0}', '\u{a0}', '\u{2028}', '#',
 ];
